@@ -127,12 +127,6 @@ def caseMaps (c : Json) : List (MapDict Nat) :=
   | some idx => idx.filterMap fun j => (asNat? j).bind fun i => Gen.AttrMaps.attrMaps[i]?
   | none => (arrD m "custom").map parseMap
 
-def isFullBundled (c : Json) : Bool :=
-  let m := (obj? c "maps").getD Json.null
-  match arr? m "bundled" with
-  | some idx => idx.filterMap asNat? == List.range Gen.AttrMaps.attrMaps.length
-  | none => false
-
 def parseSender (c : Json) : Sender Nat :=
   match nat? c "send" with
   | some i => .index i
